@@ -116,12 +116,15 @@ impl ProtocolState {
     }
 
     // the table invariants (W0..W9); independent of the connection state machine
-    pub open spec fn wf_core(&self) -> bool {
+    pub open spec fn wf_tables(&self) -> bool {
         &&& self.next_packet_id >= 1
         &&& self.next_operation_id >= 1
         &&& self.wf_ops()
         &&& self.wf_alloc()
         &&& self.wf_pending()
+    }
+    pub open spec fn wf_core(&self) -> bool {
+        &&& self.wf_tables()
         &&& self.wf_slow_start()
     }
 
